@@ -11,13 +11,13 @@ value ends with that value, no other record changes).  mca.variable_elasticities
 to write nothing but the cache field: parameter values, name space and a state dict handed
 in by the caller are what they were on entry (it perturbs a copy).  Assumed: get_parameter_values()
 returns the current plain values; get_fluxes / get_initial_conditions write only the
-cache field; get_variable_names writes nothing."""
+cache field.  Model.get_variable_names (a new list, nothing written) is proved."""
 from props._runner import run
 
 if __name__ == "__main__":
     run("C18", "exploration", files=["model_edit.py", "mca_frames.py"],
         targets=["mxlpy.model:Model.update_parameters", "mxlpy.mca:parameter_elasticities",
-                 "mxlpy.mca:variable_elasticities"],
+                 "mxlpy.mca:variable_elasticities", "mxlpy.model:Model.get_variable_names"],
         notes="C18: run-time contract on the real code over an enumerated small scope (bounded stand-in, deciding); "
               "parameter_elasticities proved to restore every parameter value on normal return; "
               "variable_elasticities proved to leave parameter values and the caller's state dict untouched")
